@@ -23,7 +23,10 @@ struct Ctx {
 }
 
 impl Ctx {
-    fn run(&mut self, label: &str, f: impl FnOnce() -> Result<(), String>) {
+    fn run(&mut self, label: &str, inlen: usize, f: impl FnOnce() -> Result<(), String>) {
+        // live heap before and after the run (counting allocator): whatever the run allocated and did not
+        // release is a leak.  Everything the run owns (reader, results, events) is dropped before measuring.
+        let before = crate::mem::heap_now();
         xt::verif::start_events();
         let r = catch(f);
         let evs = xt::verif::take_events();
@@ -32,7 +35,12 @@ impl Ctx {
             Ok(Err(_)) => "err",
             Err(_) => "panic",
         };
-        writeln!(self.out, "{}", json!({"ev": "run", "outcome": outcome, "label": label})).unwrap();
+        drop(r);
+        let held_by_events = evs.capacity() * std::mem::size_of::<xt::verif::Event>();
+        let leaked = crate::mem::heap_now().saturating_sub(before).saturating_sub(held_by_events);
+        // the first runs warm up lazily initialised statics (not leaks): measured from run 40 on
+        let leaked = if self.sum.evaluations < 40 { 0 } else { leaked };
+        writeln!(self.out, "{}", json!({"ev": "run", "outcome": outcome, "label": label, "leaked": leaked, "inlen": inlen})).unwrap();
         let mut n = 0;
         for e in &evs {
             if KINDS.contains(&e.kind) {
@@ -59,7 +67,7 @@ fn translate(bytes: &Rc<Vec<u8>>, explicit: bool, reader: Option<SchedReader>) -
     .map_err(|e| e.to_string())
 }
 
-pub fn record(out_path: &str, count: u64) {
+pub fn record(out_path: &str, count: u64, panics: bool) {
     let seed = seed_from_env();
     let mut cx = Ctx { out: BufWriter::new(File::create(out_path).expect("trace")), sum: Summary::new("record-chunker"), events: 0 };
     // a large input with multi-byte characters straddling the 8 KiB / 16 KiB refill boundaries
@@ -96,7 +104,7 @@ pub fn record(out_path: &str, count: u64) {
         let small = bytes.len() < 2000;
         // (a) every supply: slice / reader, explicit / detected (detection abandons its chunker early)
         for explicit in [true, false] {
-            cx.run(&format!("{label}/slice/{explicit}"), || translate(&bytes, explicit, None));
+            cx.run(&format!("{label}/slice/{explicit}"), bytes.len(), || translate(&bytes, explicit, None));
             let mut scheds = vec![Sched::All, Sched::Fixed(7), Sched::Random(Rng::new(rng.next()), 300)];
             if small {
                 scheds.push(Sched::Fixed(1));
@@ -104,27 +112,30 @@ pub fn record(out_path: &str, count: u64) {
             for sc in scheds {
                 let d = sc.describe();
                 let rd = SchedReader::new(bytes.clone(), sc, new_log());
-                cx.run(&format!("{label}/reader/{explicit}/{d}"), || translate(&bytes, explicit, Some(rd)));
+                cx.run(&format!("{label}/reader/{explicit}/{d}"), bytes.len(), || translate(&bytes, explicit, Some(rd)));
             }
             // (b) the reader fails at some offsets
             for _ in 0..3 {
                 let k = rng.below(bytes.len() as u64 + 1) as usize;
                 let rd = SchedReader::new(bytes.clone(), Sched::Fixed(rng.range(1, 64) as usize), new_log()).with_fault(k);
-                cx.run(&format!("{label}/rfault@{k}/{explicit}"), || translate(&bytes, explicit, Some(rd)));
+                cx.run(&format!("{label}/rfault@{k}/{explicit}"), bytes.len(), || translate(&bytes, explicit, Some(rd)));
             }
             // (c) a reader that over-reports by every small excess (and by a lot), from various read calls on
             for excess in [1usize, 2, 3, 5, 8, 13, 17, 100_000] {
+                if !panics {
+                    break;
+                }
                 let mut rd = SchedReader::new(bytes.clone(), Sched::All, new_log());
                 rd.over_report = Some(excess);
                 rd.over_from_read = rng.below(6) as usize;
                 let from = rd.over_from_read;
-                cx.run(&format!("{label}/over+{excess}@read{from}/{explicit}"), || translate(&bytes, explicit, Some(rd)));
+                cx.run(&format!("{label}/over+{excess}@read{from}/{explicit}"), bytes.len(), || translate(&bytes, explicit, Some(rd)));
             }
         }
         // (d) the chunker alone, dropped after j documents
         for j in 0..3usize {
             let rd = SchedReader::new(bytes.clone(), Sched::Fixed(rng.range(1, 40) as usize), new_log());
-            cx.run(&format!("{label}/chunks/drop-after-{j}"), || {
+            cx.run(&format!("{label}/chunks/drop-after-{j}"), bytes.len(), || {
                 let mut it = xt::verif::yaml_chunks(rd);
                 for _ in 0..j {
                     match it.next() {
